@@ -53,6 +53,38 @@ def r1_siblings(ctx):
                 for b in F.bodies_with("de::" + ty, "XmlRead", end=meth):
                     cs = [sym.short(c[2]).split("::")[-1] for p in ctx.paths(b) for c in calls(p)]
                     ctx.ob("R1", "%s::%s:delegates" % (ty, meth), any(x in inner for x in cs), "delegates to the reader's %s: %s" % ("/".join(inner), sorted(set(cs))), config=cfg)
+        # sibling agreement of the delegating methods: same calls (modulo the `_into` buffer variant) and same writes to self
+        def shape(b):
+            out = set()
+            for p in ctx.paths(b):
+                last = p[-1]
+                if last[0] != "ret":
+                    continue
+                r = ret_of(p)
+                kind = "ok" if describe_ret(r, 0)[0][:1] == ("Ok",) else ("err" if describe_ret(r, 0)[0][:1] == ("Err",) else "val")
+                cs = tuple(sym.short(c[2]).split("::")[-1].replace("_into", "") for c in calls(p) if not name_is(c[2], "into", "from", "branch", "from_residual"))
+                st = tuple(sorted({".".join(fields_of(e[2])) for e in p if e[0] == "store" and root_of(e[2])[0] == "arg" and root_of(e[2])[2] == "self"}))
+                out.add((kind, cs, st))
+            return out
+        for meth in ("read_to_end", "decoder", "has_nil_attr"):
+            a = F.bodies_with("de::SliceReader", "XmlRead", end=meth)
+            b = F.bodies_with("de::IoReader", "XmlRead", end=meth)
+            if len(a) == 1 and len(b) == 1:
+                sa, sb = shape(a[0]), shape(b[0])
+                ctx.ob("R1", "%s:siblings-agree" % meth, sa == sb and all(not st for _, _, st in sa | sb),
+                       "SliceReader::%s and IoReader::%s must make the same calls and write no reader state of their own (the start-trimming state in particular belongs to next()): slice %s, io %s" % (meth, meth, sorted(sa), sorted(sb)), config=cfg)
+            else:
+                ctx.ob("R1", "%s:siblings-agree" % meth, False, "anchor-missing", config=cfg)
+        # who may write the start-trimmer state: only StartTrimmer::trim (through &mut self) and the constructors
+        writers = set()
+        for body in F.bodies:
+            if "src/de/" not in body.span(body.j["span"])["root"]:
+                continue
+            for _, st in body.stmts():
+                pl = st.get("p")
+                if pl and any(isinstance(e, dict) and e.get("n") in ("start_trimmer", "trim_start") for e in pl[1]):
+                    writers.add(sym.short(strip_generics(body.path)))
+        ctx.ob("R1", "start_trimmer:writers", writers <= {"StartTrimmer::trim"}, "the start-trimming state is updated only by StartTrimmer::trim: %s" % sorted(writers), config=cfg)
         # constructors
         cons = {}
         for b in F.bodies:
